@@ -1,0 +1,40 @@
+//go:build verif
+
+package controler
+
+// Contracts for govc (see /verif/DESIGN.md). Comment-only file: it adds no code.
+
+// stopPipeline (C03): a graceful stop shuts every component down exactly once, upstream first:
+// the reactor is frozen, then preprocessor, archiver (which waits for the WARC writers and closes
+// the WARC clients), postprocessor and finisher are stopped, then the source that was started
+// (crawl HQ or the local queue - the same choice startPipeline made), then the reactor. The
+// seencheck database is closed exactly when startPipeline opened it.
+//@ func stopPipeline
+//@   property C03
+//@   attr assume-pre Stop:as-started
+//@   attr hooked Stop,Freeze,Close
+//@   requires config.config != nil
+//@   local stage int = 0
+//@   local seenClosed int = 0
+//@   assert reactor.Freeze()#1: [order] stage == 0
+//@   after reactor.Freeze()#1: stage = 1
+//@   assert preprocessor.Stop()#1: [order] stage == 1
+//@   after preprocessor.Stop()#1: stage = 2
+//@   assert archiver.Stop()#1: [order] stage == 2
+//@   after archiver.Stop()#1: stage = 3
+//@   assert postprocessor.Stop()#1: [order] stage == 3
+//@   after postprocessor.Stop()#1: stage = 4
+//@   assert finisher.Stop()#1: [order] stage == 4
+//@   after finisher.Stop()#1: stage = 5
+//@   assert seencheck.Close()#1: [as-started] stage == 5 && config.config.UseSeencheck && !config.config.UseHQ
+//@   after seencheck.Close()#1: seenClosed = seenClosed + 1
+//@   assert hq.Stop()#1: [order] stage == 5 && config.config.UseHQ
+//@   after hq.Stop()#1: stage = 6
+//@   assert lq.Stop()#1: [order] stage == 5 && !config.config.UseHQ
+//@   after lq.Stop()#1: stage = 6
+//@   assert reactor.Stop()#1: [order] stage == 6
+//@   after reactor.Stop()#1: stage = 7
+//@   after log.Stop()#1: stage = stage
+//@   after consul.Stop()#1: stage = stage
+//@   after Stop(?)#1: stage = stage
+//@   ensures [all-stopped] @C03 stage == 7 && (old(config.config.UseSeencheck && !config.config.UseHQ) ==> seenClosed == 1) // C03: a stop request returns with every component shut down (each Stop called exactly once, upstream first; the seencheck database closed when it was opened)
